@@ -399,3 +399,47 @@ pub fn dup(output: &str) -> std::io::Result<i32> {
     out.flush()?;
     Ok(0)
 }
+
+/// Known finding D20 (C07 / C06): LocalSpan::with_property on a span that is not the innermost handle,
+/// while a local-parent scope opened after it is still alive; everything is released in reverse order
+/// of creation.  Run in a child process (`withline-child`): the pinned code fails a debug assertion and
+/// then, in the span's destructor during unwinding, a second one, which aborts the process.
+pub fn withline_child() -> i32 {
+    use fastrace::prelude::*;
+    fastrace::set_reporter(rt::CapturingReporter, fastrace::collector::Config::default().report_interval(Duration::from_secs(3600)));
+    shared().free.store(true, Ordering::SeqCst);
+    std::thread::sleep(Duration::from_millis(100));
+    rt::take_log();
+    let root = Span::root("wl-root", SpanContext::new(fastrace::collector::TraceId(0x317e), fastrace::collector::SpanId(1)));
+    let other = Span::root("wl-other", SpanContext::new(fastrace::collector::TraceId(0x317f), fastrace::collector::SpanId(1)));
+    {
+        let _g = root.set_local_parent();
+        let s = LocalSpan::enter_with_local_parent("wl-outer");
+        let g2 = other.set_local_parent();
+        let s = s.with_property(|| ("wl-key", "wl-value"));
+        drop(g2);
+        drop(s);
+    }
+    drop(other);
+    drop(root);
+    fastrace::flush();
+    let delivered = rt::take_log().iter().any(|l| l.contains("\"wl-outer\"") && l.contains("wl-key"));
+    if delivered { 0 } else { 7 }
+}
+
+pub fn withline(output: &str) -> std::io::Result<i32> {
+    let exe = std::env::current_exe()?;
+    let st = std::process::Command::new(exe).arg("withline-child").stdout(std::process::Stdio::null()).stderr(std::process::Stdio::null()).status()?;
+    let outcome = match st.code() {
+        Some(0) => "ok",
+        Some(7) => "properties-dropped",
+        Some(_) => "panic",
+        None => "abort",
+    };
+    let mut out = std::io::BufWriter::new(std::fs::File::create(output)?);
+    writeln!(out, "{}", json!({"ev":"reset","run":0,"cfg":{"cancelable":false,"enabled":true,"ready":true,"queue":10240,"stack":4096,"ring":10240,"foreign":[],"free":true}}))?;
+    writeln!(out, "{}", json!({"ev":"withline","outcome":outcome}))?;
+    writeln!(out, "{}", json!({"ev":"end","run":0,"misses":0,"hung":false}))?;
+    out.flush()?;
+    Ok(0)
+}
